@@ -45,34 +45,57 @@ class CdcNetlist(Netlist):
         Netlist.__init__(self, module, clocks=clocks, special_overrides={MultiReg: self.rec})
         self.mr = dict(self.rec.impl)          # id(special) -> (special, impl)
         self.changing_samples = 0              # statistics: resolutions that mattered
+        regs = set(self.regs)
+        # fast path: every synchroniser samples a register directly (true for all Migen/LiteX users here)
+        self.src_is_reg = all(isinstance(impl.i, Signal) and impl.i in regs for _, impl in self.mr.values())
 
     def first_flop(self, special):
         return self.mr[id(special)][1].regs[0]
 
-    def src_value(self, special):
-        return self.ev.eval(self.mr[id(special)][1].i)
+    def _src(self, impl):
+        return self.ev.eval(impl.i) & _mask(impl.regs[0])
+
+    def tick_sync(self, cds):
+        """Execute the sync statements of `cds` and commit; returns {special id: (old, new)} for every
+        synchroniser clocked in this instant whose source changed in this instant.  Comb logic is NOT yet
+        propagated (call `finish_tick`)."""
+        ev = self.ev
+        olds = {}
+        for sid, (sp, impl) in self.mr.items():
+            if impl.odomain in cds:
+                olds[sid] = self._src(impl)
+        for cd in cds:
+            if cd in self.sync:
+                ev.execute(self.sync[cd])
+        ev.commit()
+        if not self.src_is_reg:
+            ev.execute(self.comb)
+            self._propagate()
+        changed = {}
+        for sid, old in olds.items():
+            new = self._src(self.mr[sid][1])
+            if new != old:
+                changed[sid] = (old, new)
+        return changed
+
+    def resolve(self, changed, masks):
+        for sid, (old, new) in changed.items():
+            reg = self.mr[sid][1].regs[0]
+            v = mixbits(masks.get(sid, 0), old, new)
+            self.ev.signal_values[reg] = _signed(v, reg) if reg.signed else v
+            self.changing_samples += 1
+
+    def finish_tick(self):
+        self.ev.execute(self.comb)
+        self._propagate()
 
     def tick(self, t):
         if not isinstance(t, Tick):
             return Netlist.tick(self, t)
         cds, masks = t
-        olds = {}
-        for sid, (sp, impl) in self.mr.items():
-            if impl.odomain in cds:
-                olds[sid] = self.ev.eval(impl.i)
-        Netlist.tick(self, cds)
-        dirty = False
-        for sid, old in olds.items():
-            sp, impl = self.mr[sid]
-            new = self.ev.eval(impl.i)
-            if new != old:
-                self.changing_samples += 1
-                m = masks.get(sid, 0)
-                self.ev.signal_values[impl.regs[0]] = mixbits(m, old, new) if not impl.regs[0].signed else \
-                    _signed(mixbits(m, old & _mask(impl.regs[0]), new & _mask(impl.regs[0])), impl.regs[0])
-                dirty = True
-        if dirty:
-            self.settle()
+        changed = self.tick_sync(cds)
+        self.resolve(changed, masks)
+        self.finish_tick()
 
 
 def _mask(sig):
@@ -130,7 +153,7 @@ class AFifoInst:
        outputs: [sink.ready, source.valid, source.tok]"""
 
     def __init__(self, name, module, k, buffered=False, cd_w="write", cd_r="read", tokens=(0, 1),
-                 masks=None, sink=None, source=None, ratio=None):
+                 alternate=False, eager=False, sink=None, source=None, ratio=None):
         self.name = name
         self.module = module
         self.k = k
@@ -147,30 +170,52 @@ class AFifoInst:
         self.sp_w = [sp for sp in mrs if sp.odomain == "write"][0]   # consume.q  -> write domain
         self.sp_r = [sp for sp in mrs if sp.odomain == "read"][0]    # produce.q  -> read domain
         self.netlist = CdcNetlist(module, clocks=(cd_w, cd_r))
-        assert self.netlist.mr[id(self.sp_w)][1].odomain == cd_w
-        assert self.netlist.mr[id(self.sp_r)][1].odomain == cd_r
+        # (which domain really clocks each synchroniser after renaming is whatever the code under test does;
+        #  the harness clocks `cd_w` when the sink side has an edge and `cd_r` when the source side has one)
         self.isigs = ep_fields(self.sink)
         self.osigs = ep_fields(self.source)
         self.tokw = sum(len(s) for s in self.isigs)
         self.qual = [None, None, 1]
         self.tokens = list(tokens)
-        full = (1 << (k + 1)) - 1
-        masks = list(masks) if masks is not None else [0, full]
-        letters = []
-        for v in (0, 1):
-            for d in (self.tokens if v else self.tokens[:1]):
-                letters.append((1, 0, 0, 0, v, d, 0))                     # write edge only
-        for r in (0, 1):
-            letters.append((0, 1, 0, 0, 0, self.tokens[0], r))            # read edge only
-        for v in (0, 1):
-            for d in (self.tokens if v else self.tokens[:1]):
-                for r in (0, 1):
-                    for mw in masks:
-                        for mr in masks:
-                            letters.append((1, 1, mw, mr, v, d, r))       # simultaneous edges
-        self.alphabet = letters
+        self.alternate = alternate
+        self.eager = eager          # mode A with producer always offering and consumer always accepting
+        self.mask_order = [id(self.sp_w), id(self.sp_r)]
+        self.alphabet = None
         self.ratio = ratio
         self._phase = None
+
+    FMT = "tw, tr, mask(consume.q->write flop), mask(produce.q->read flop), sink.valid, sink.token, source.ready"
+
+    # -- mode A (fork_coexplore) ----------------------------------------------------------------------------
+    def pst_init(self):
+        return 0
+
+    def pst_next(self, pst, letter, outs):
+        if self.alternate and letter[0] and letter[4] and outs[0]:
+            return (pst + 1) % len(self.tokens)
+        return pst
+
+    def base_letters(self, pst):
+        """(tw, tr, valid, token, ready) without resolution masks.  Inputs that cannot influence anything in an
+        instant (source.ready without a read edge, sink.* without a write edge) are kept at a single value."""
+        toks = [self.tokens[pst]] if self.alternate else self.tokens
+        if self.eager:
+            return [(1, 0, 1, d, 1) for d in toks] + [(0, 1, 1, toks[0], 1)] + [(1, 1, 1, d, 1) for d in toks]
+        L = []
+        L.append((1, 0, 0, toks[0], 0))
+        L += [(1, 0, 1, d, 0) for d in toks]
+        L += [(0, 1, 0, toks[0], r) for r in (0, 1)]
+        for r in (0, 1):
+            L.append((1, 1, 0, toks[0], r))
+            L += [(1, 1, 1, d, r) for d in toks]
+        return L
+
+    def cds_of(self, base):
+        return tuple(cd for cd, t in ((self.cd_w, base[0]), (self.cd_r, base[1])) if t)
+
+    def make_letter(self, base, masks):
+        tw, tr, v, d, r = base
+        return (tw, tr, masks.get(id(self.sp_w), 0), masks.get(id(self.sp_r), 0), v, d, r)
 
     def clocks(self, letter):
         tw, tr, mw, mr = letter[:4]
@@ -272,3 +317,113 @@ class CrossScoreboard:
         if msg is None and len(self.q) > self.capacity:
             msg = "%d tokens in flight, capacity %d (pointer distance bound)" % (len(self.q), self.capacity)
         return msg
+
+
+# ---------------------------------------------------------------------------------------------------------------
+# Exhaustive co-exploration with resolution forks (mode A for multi-clock instances).
+#
+# Same contract as explore.coexplore (complete reachable product of implementation snapshots and model state ids,
+# port-level comparison on every transition) with two differences:
+#   * the resolution letters are restricted to the bits that can actually differ: the clock/handshake part of a
+#     letter is applied once, and only if a synchroniser's source really changed in that instant the transition
+#     forks into every subset of the differing bits (for a Gray pointer: two outcomes, old or new; for a pointer
+#     that changes several bits at once: all 2^n mixtures);
+#   * the harness-side producer may carry a little state (alternating token values) that is part of the product.
+import itertools, time
+from collections import deque
+import explore as _explore
+from explore import Disagreement, _masked_equal, _path
+
+
+def _submasks(diff):
+    bits = [1 << j for j in range(diff.bit_length()) if (diff >> j) & 1]
+    out = []
+    for r in range(len(bits) + 1):
+        for c in itertools.combinations(bits, r):
+            out.append(sum(c))
+    return out
+
+
+def fork_coexplore(inst, lean, cov, max_states=200000, deadline=None):
+    n = inst.netlist
+    t_start = time.time()
+    lean.open(inst.lean_open)
+    pst0 = inst.pst_init()
+    root_key = (n.state_key(), 0, pst0)
+    seen = {root_key: (None, None)}
+    frontier = deque([(n.snapshot(), 0, pst0, root_key)])
+    transitions = nontriv = forks_taken = 0
+    disagreements = []
+    exhaustive = True
+    while frontier and len(disagreements) < 3:
+        if (deadline is not None and time.time() > deadline) or len(seen) > max_states:
+            exhaustive = False
+            break
+        batch = [frontier.popleft() for _ in range(min(len(frontier), 256))]
+        reqs, impl_res = [], []
+        for snap, sid, pst, pair in batch:
+            for base in inst.base_letters(pst):
+                n.restore(snap)
+                inst.apply(inst.make_letter(base, {}))
+                outs = inst.sample()
+                changed = n.tick_sync(inst.cds_of(base))
+                if changed:
+                    mid = n.snapshot()
+                    sids = sorted(changed, key=inst.mask_order.index)
+                    combos = itertools.product(*[_submasks(changed[s][0] ^ changed[s][1]) for s in sids])
+                else:
+                    mid, sids, combos = None, [], [()]
+                first = True
+                for combo in combos:
+                    masks = dict(zip(sids, combo))
+                    if not first:
+                        n.restore(mid)
+                        forks_taken += 1
+                    first = False
+                    n.resolve(changed, masks)
+                    n.finish_tick()
+                    letter = inst.make_letter(base, masks)
+                    impl_res.append((pair, letter, outs, n.state_key(), n.snapshot(), inst.pst_next(pst, letter, outs)))
+                    reqs.append((sid, inst.model_letter(letter) if hasattr(inst, "model_letter") else letter))
+        model_res = lean.step_batch(reqs)
+        for (pair, letter, outs, key2, snap2, pst2), (sid2, mouts) in zip(impl_res, model_res):
+            transitions += 1
+            if inst.nontrivial(letter, outs):
+                nontriv += 1
+            if not _masked_equal(inst, outs, mouts):
+                trace = _path(seen, pair) + [letter]
+                disagreements.append(Disagreement(inst, trace, len(trace) - 1, outs, mouts))
+                if len(disagreements) >= 3:
+                    break
+                continue
+            p2 = (key2, sid2, pst2)
+            if p2 not in seen:
+                seen[p2] = (pair, letter)
+                frontier.append((snap2, sid2, pst2, p2))
+    if disagreements:
+        exhaustive = False
+    lean.close_session()
+    cov.add_instance(inst.name, states=len(seen), transitions=transitions, nontrivial=nontriv,
+                     exhaustive=exhaustive, mode="A")
+    cov.instances[-1]["wall_s"] = round(time.time() - t_start, 1)
+    cov.instances[-1]["resolution_forks"] = forks_taken
+    cov.count("A:resolution_forks", forks_taken)
+    if seen and len(cov.samples) < 6:
+        last = next(reversed(seen))
+        cov.samples.append({"instance": inst.name, "mode": "A", "letter_format": inst.FMT,
+                            "path_to_deepest_state": [list(l) for l in _path(seen, last)][:40]})
+    return disagreements
+
+
+_orig_coexplore = _explore.coexplore
+
+
+def _dispatch_coexplore(inst, lean, cov, **kw):
+    """Instances that define `base_letters` are explored with resolution forks; everything else goes to the
+    shared engine.  (explore._worker looks the name up at call time, in the forked worker.)"""
+    if hasattr(inst, "base_letters"):
+        return fork_coexplore(inst, lean, cov, **kw)
+    return _orig_coexplore(inst, lean, cov, **kw)
+
+
+_explore.coexplore = _dispatch_coexplore
